@@ -20,8 +20,9 @@ PROP = Prop(
         "reward, or a masked optimal cell."
     ),
     assumptions=[
-        "the assignment policy is judged against the documented behaviour: a maximum-weight complete matching of the (unmasked) reward "
-        "matrix, intersected with visibility; any optimal matching is accepted when there are ties",
+        "the assignment policy is judged as the property states it: a maximum-weight complete matching of the reward matrix with the "
+        "invisible cells set to zero, intersected with visibility; any optimal matching is accepted when there are ties (until S29 "
+        "was fixed the check compared with the unmasked matrix, i.e. with what the code did)",
         "optimal value: brute force over all complete matchings for min(N,M) <= 4, subset dynamic programme for min(N,M) <= 10, "
         "scipy.optimize.linear_sum_assignment on the constrained problem beyond that (scipy is trusted base)",
         "relabelling equivariance is asserted only when the optimal matching is unique",
@@ -134,6 +135,10 @@ def _lsa_opt(r, forced=(), forbidden=()):
 
 
 def _check_munkres(r, v, d, rec, want_unique=False):
+    # "a maximum-total-reward complete one-to-one assignment of the reward matrix MASKED BY VISIBILITY": a pair the sensor cannot
+    # see contributes nothing, whatever reward the caller's matrix holds there
+    r_given = r
+    r = np.where(v, r, 0.0)
     n, m = r.shape
     k = min(n, m)
     if np.any(d & ~v):
@@ -165,7 +170,7 @@ def _check_munkres(r, v, d, rec, want_unique=False):
                     unique = False
                     break
     if not ok:
-        raise Violation("munkres_not_optimal", f"decision is not (a maximum-weight complete one-to-one assignment of the reward matrix) & visibility: R={r.tolist()} V={v.astype(int).tolist()} D={d.astype(int).tolist()}")
+        raise Violation("munkres_not_optimal", f"decision is not (a maximum-weight complete one-to-one assignment of the reward matrix masked by visibility) & visibility: R={np.asarray(r_given).tolist()} V={v.astype(int).tolist()} D={d.astype(int).tolist()}")
     return unique
 
 
